@@ -267,6 +267,9 @@ func (fv *FuncVerifier) summarizeInstr(ins ssa.Instruction, cells map[ssa.Value]
 	case *ssa.Range:
 		cells[x] = true
 	case *ssa.Next:
+		// advancing an iterator changes its hidden position (the Range instruction itself sits in
+		// front of the loop)
+		cells[x.Iter] = true
 	case ssa.CallInstruction:
 		*allocs = true
 		if _, isDefer := x.(*ssa.Defer); isDefer {
